@@ -475,6 +475,74 @@ def ignored_variants(tree, base, ignored):
     return emptied, removed
 
 
+# ---------------------------------------------------------------------------------------------------------------
+# Names made of characters that are special to SOME layer of the server (virtual-selector separators, URL / HTTP
+# syntax, shell and glob syntax, regex syntax of the ignore pattern, control characters, reserved words of handlers
+# and protocols).  To the file system they are ordinary names: a visible regular file or directory with such a name
+# is listed exactly once by both handlers in every enumeration order and is retrievable by its exact selector.
+# (Names the request filter refuses by design -- '..', './', '//', backslash pairs, NUL -- are not in this pool.)
+SPECIAL_GROUPS = {
+    "virtual": ["Who am I?.txt", "FAQ - what is gopher?/", "cut|paste.txt", "a|b/", "?", "|", "q?x=1&y=2", "x?.html",
+                "mail|2", "?/", "a?|b"],
+    "url": ["#hash", "a#b.txt", "100%.txt", "%41.txt", "%2e%2e", "a&b", "a;b", "k=v", "a+b.txt", "c:d", "C:/", "@at",
+            "a,b", "x%/"],
+    "shell": ["star*.txt", "[x]", "{y}", "~tilde", "$HOME", "!bang", "it's", 'say "hi"', "-rf", "--help/", "a\\b",
+              "`cmd`", "(paren)", "<lt>", "^caret", "a$", "x^|y$"],
+    "edges": ["trail.", "trail ", " lead", "\x01ctl", "\x7fdel", "\x1b[0m", "dot./", "-"],
+    "reserved": ["MBOX-MESSAGE", "URL:x", "GEMINI-QUERY", "PYGOPHERD-HTTPPROTO-ICONS/", "wap", "MBOX-MESSAGE/", "HTTP",
+                 "GET", "1", "0/", "index.wml", "wap/"],
+}
+
+
+def special_names_tree(rng, base, pool, k):
+    """k names of the pool (a trailing / marks a directory) between two plain names -> (tree, names, hidden, extra)"""
+    pre = base.strip("/")
+    pre = pre + "/" if pre else ""
+    picked, seen = [], set()
+    for n in rng.sample(pool, len(pool)):
+        if n.rstrip("/") not in seen and len(picked) < k:
+            seen.add(n.rstrip("/"))
+            picked.append(n)
+    tree = [{"path": tp(pre.rstrip("/")), "kind": "dir"}] if pre else []
+    names, extra = [], []
+    for n in picked + ["a.txt", "m"]:
+        if n.rstrip("/") in names:
+            continue
+        if n.endswith("/"):
+            n = n[:-1]
+            tree.append({"path": tp(pre + n), "kind": "dir"})
+            tree.append({"path": tp(pre + n + "/inner.txt"), "data": "inside %s\n" % tp(n)})
+            extra.append(n + "/inner.txt")
+        else:
+            tree.append({"path": tp(pre + n), "data": "content of %s\n" % tp(n)})
+        names.append(n)
+    return tree, names, set(), extra
+
+
+def special_names_trees(rng, thorough):
+    out = []
+    everything = [n for g in SPECIAL_GROUPS.values() for n in g]
+    for gi, (label, pool) in enumerate(sorted(SPECIAL_GROUPS.items())):
+        for rep in range(2 if thorough else 1):
+            base = ["/d", "/", "/sub dir"][(gi + rep) % 3]
+            t, names, hidden, extra = special_names_tree(rng, base, pool, 3)
+            out.append({"tree": t, "dir": base, "names": names, "hidden": hidden, "perms": "all", "fetch_extra": extra})
+    # every special name at once, directly below the root and below a directory
+    for base in ("/", "/all"):
+        t, names, hidden, extra = special_names_tree(rng, base, everything, len(everything))
+        out.append({"tree": t, "dir": base, "names": names, "hidden": hidden, "perms": None, "nrand": 4, "fetch_extra": extra})
+    # the LISTED directory carries such a name itself (every child selector then contains the character)
+    more = {"virtual": ["what?", "pipe|d"], "url": ["100% #1"], "shell": ["it's [here]"], "edges": ["\x01"], "reserved": []}
+    for label, pool in sorted(SPECIAL_GROUPS.items()):
+        # (below a directory whose name ends in a dot every selector contains "./", which the request filter refuses
+        # by design -- same policy as for the other climbers; such a directory is only used as an ENTRY above)
+        dirs = [n[:-1] for n in pool if n.endswith("/") and not n.endswith("./")] + more[label]
+        for d in (dirs if thorough else rng.sample(dirs, 1)):       # quick: one listed directory per layer
+            t, names, hidden, extra = special_names_tree(rng, "/" + d, everything, 2)
+            out.append({"tree": t, "dir": "/" + d, "names": names, "hidden": hidden, "perms": "all", "fetch_extra": extra})
+    return out
+
+
 def d11_tree():
     return [{"path": "d/a.txt", "data": "x\n"}, {"path": "d/b.txt", "data": "y\n"},
             {"path": "d/.one", "data": "Path=./a.txt\nName=First\n"},
@@ -664,6 +732,7 @@ def run(tier):
         trees.append({"tree": t, "dir": "/d", "names": names, "hidden": hidden, "perms": "all"})
     for t, names, hidden in faulty_mixed_trees():
         trees.append({"tree": t, "dir": "/d", "names": names, "hidden": hidden, "perms": None, "nrand": 10, "faulty": True})
+    trees.extend(special_names_trees(rng, thorough))
     # directories whose own path is matched by an unanchored alternative; other configured patterns
     for patt in [None] + OTHER_PATTERNS:
         live = patt or shipped
@@ -689,7 +758,7 @@ def run(tier):
                 perms.append(p)
             perms.append(list(range(n)))
             perms.append(list(reversed(range(n))))
-        fetch = [n for n in tr["names"] if n not in DIRLIKE]
+        fetch = [n for n in tr["names"] if n not in DIRLIKE] + tr.get("fetch_extra", [])
         cfg = CONFIG
         if tr.get("patt") or tr.get("cfgpatt"):
             cfg = {"handlers.dir.DirHandler": {"cachetime": "0", "ignorepatt": tr.get("patt") or tr["cfgpatt"]}}
@@ -943,7 +1012,10 @@ def run(tier):
                    "names the pattern matches take no part: directories holding matched dot-files and plain names whose "
                    "content is link-file syntax (hide / title / number / abstract / link blocks), under the shipped and two "
                    "other patterns and in a directory that is matched itself, listed as they are, with that content emptied "
-                   "and without those names: every field of every entry must agree")
+                   "and without those names: every field of every entry must agree; names special to some layer (virtual-"
+                   "selector separators ? |, URL/HTTP, shell/glob/regex syntax, control characters, trailing dot/blank, "
+                   "reserved words of handlers and protocols) as files, as sub-directories and as the listed directory "
+                   "itself: exactness under all permutations, retrieval by exact selector (also of a file inside)")
     chk.assumptions += [
         "list.sort is a stable sort (Props/C07.v stable_sort_unique then fixes its result); cross-checked on real sorts",
         "the handler list is one in which directories and regular files are always taken by some handler and nothing "
